@@ -10,9 +10,15 @@
    below 2^53); for HyperLogLog the update / merge / harmonic-sum scripts refine the register
    operations; for Bloom the SETBIT/GETBIT string and the extending bitset hold the same bits
    after the same inserts, so every Lookup answers alike on every history
-   (C08_bloom_same_answers_on_every_history). For Top-K and cuckoo the two variants order ties /
-   slots differently by design: both are proved to satisfy the same invariants (C04, C13, C14,
-   C02) and share the pieces below. *)
+   (C08_bloom_same_answers_on_every_history). For the cuckoo filter the two variants lay their
+   slots out differently (first empty slot / reused position or head of the Redis list), so the
+   refinement relation is "corresponding buckets hold the same multiset of fingerprints"; under
+   it, on EVERY history of Insert and Remove in which no insert has to relocate a stored
+   fingerprint, both variants return from every Insert, answer every Remove alike, and at every
+   point answer every Lookup alike and report the same Length
+   (C08_cuckoo_same_answers_until_relocation, C08_cuckoo_lookup_and_length, C08_cuckoo_new).
+   For Top-K the two variants order ties differently by design: both are proved to satisfy the
+   same invariants (C04) and share the comparison below. *)
 From GX.Model Require Import Base CMS Bloom HLL Cuckoo Heap TopK Redis RedisCMS RedisHLL RedisBloom RedisCuckoo RedisTopK.
 From GX.Proofs Require Import ListLemmas HLLProofs CMSProofs RedisCMSRefine RedisHLLRefine RedisBloomRefine.
 From GX.Proofs Require Import NonVacuity.
@@ -132,3 +138,62 @@ Print Assumptions C08_cms_same_answers_on_every_history.
 Print Assumptions C08_hll_update_refines.
 Print Assumptions C08_hll_same_harmonic_sum.
 Print Assumptions C08_bloom_same_answers_on_every_history.
+
+(* ---------- cuckoo: same answers until the first relocation ---------- *)
+From GX.Proofs Require Import CuckooInv RedisCuckooInv CuckooRefine.
+Section CuckooPair.
+Variable key meta : bytes.
+Variable size bsize fpl retries : N.
+Hypothesis meta_not_bucket : forall i, meta <> bucket_key key i.
+Hypothesis meta_not_len : forall i, meta <> len_key (bucket_key key i).
+Hypothesis bsize_pos : 1 <= bsize.
+Hypothesis bsize_small : bsize < 2 ^ 62.
+Hypothesis size_pos : 0 < size.
+Variable h64 : bytes -> N.
+
+(* new filters with the same parameters are related (fresh Redis keys) *)
+Theorem C08_cuckoo_new : forall s0, size * bsize < two64 -> meta <> key ->
+  (forall i, i < size -> sget s0 (bucket_key key i) = None /\ sget s0 (len_key (bucket_key key i)) = None) ->
+  CR key meta size bsize fpl retries (ck_new size bsize fpl retries) (snd (rck_new s0 size bsize fpl retries key meta)).
+Proof. exact (cuckoo_new_refines key meta size bsize fpl retries meta_not_bucket meta_not_len bsize_pos bsize_small size_pos h64). Qed.
+
+(* every history of Insert / Remove (elements with non-empty fingerprints, as in C02 / C13) in which
+   each Insert finds room in one of its two candidate buckets: the per-call answers are the same
+   list, and the two filters stay related *)
+Theorem C08_cuckoo_same_answers_until_relocation : forall ops f s,
+  CR key meta size bsize fpl retries f s -> Forall (op_ok fpl h64) ops -> no_reloc_run h64 f ops ->
+  ctrace h64 f ops = rtrace key meta size bsize fpl retries h64 s (map to_rop ops) /\
+  CR key meta size bsize fpl retries (fst (crun h64 f ops))
+     (fst (rrun_ops key meta size bsize fpl retries h64 s (map to_rop ops))).
+Proof. exact (cuckoo_history_refines key meta size bsize fpl retries meta_not_bucket meta_not_len bsize_pos bsize_small size_pos h64). Qed.
+
+(* related filters answer every Lookup alike and report the same Length *)
+Theorem C08_cuckoo_lookup_and_length : forall f s x,
+  CR key meta size bsize fpl retries f s -> fp_ok h64 fpl x = true ->
+  ck_lookup h64 f x = rck_lookup h64 s (hdl key meta size bsize fpl retries) x /\
+  (size * bsize < two64 -> q_len f = rck_length s (hdl key meta size bsize fpl retries)).
+Proof.
+  intros f s x HC Hok. split.
+  - exact (cuckoo_lookup_refines key meta size bsize fpl retries meta_not_bucket meta_not_len bsize_pos bsize_small size_pos h64 f s x HC Hok).
+  - exact (cuckoo_length_refines key meta size bsize fpl retries meta_not_bucket meta_not_len bsize_pos bsize_small size_pos h64 f s HC).
+Qed.
+End CuckooPair.
+Print Assumptions C08_cuckoo_new.
+Print Assumptions C08_cuckoo_same_answers_until_relocation.
+Print Assumptions C08_cuckoo_lookup_and_length.
+(* non-vacuity: two new filters (4 buckets of 2 slots) are related, and a concrete history of two
+   inserts and a remove meets the hypotheses of the history theorem *)
+Example C08_cuckoo_premises_hold :
+  let ops := [CIns [1] false true []; CIns [2] false true []; CRem [1]] in
+  exists f s, CR k_a k_m 4 2 2 5 f s /\ Forall (op_ok 2 h64c) ops /\ no_reloc_run h64c f ops.
+Proof.
+  intros ops. exists (ck_new 4 2 2 5), (snd (rck_new [] 4 2 2 5 k_a k_m)). split; [|split].
+  - apply (C08_cuckoo_new k_a k_m 4 2 2 5 km_not_bucket km_not_len ltac:(lia) ltac:(vm_compute; reflexivity) ltac:(lia) h64c []);
+      [vm_compute; reflexivity|vm_compute; discriminate|intros; split; reflexivity].
+  - unfold ops. repeat constructor; vm_compute; reflexivity.
+  - unfold ops. cbn [no_reloc_run no_reloc]. split; [|split; [|split; exact I]].
+    + do 5 eexists. split; [vm_compute; reflexivity|]. split; [vm_compute; reflexivity|]. split; [vm_compute; reflexivity|].
+      left. vm_compute. reflexivity.
+    + do 5 eexists. split; [vm_compute; reflexivity|]. split; [vm_compute; reflexivity|]. split; [vm_compute; reflexivity|].
+      left. vm_compute. reflexivity.
+Qed.
